@@ -32,4 +32,4 @@ package utils
 //@   loop 2 invariant forall j int :: 0 <= j && j < len(keys) ==> (keys[j] in obj.Labels)
 //@   loop 2 invariant len(labelKeys) == len(keys) && len(labelValues) == len(keys) && freshroot(labelKeys) && freshroot(labelValues) && root(labelKeys) != root(labelValues)
 //@   loop 2 invariant root(keys) != root(labelKeys) && root(keys) != root(labelValues)
-//@   loop 2 invariant forall j int :: 0 <= j && j < iter() ==> labelKeys[j] == sanitizeLabelName(keys[j]) && labelValues[j] == obj.Labels[keys[j]]
+//@   loop 2 invariant [C20] forall j int :: 0 <= j && j < iter() ==> labelKeys[j] == sanitizeLabelName(keys[j]) && labelValues[j] == obj.Labels[keys[j]]
